@@ -7,6 +7,7 @@ package main
 // biased to them) and a dictionary of strings the plugin reacts to.
 
 import (
+	"encoding/json"
 	"fmt"
 	"math/rand"
 	"strings"
@@ -57,6 +58,61 @@ var jsonTextDict = []string{
 	`{"":1}`, `{"a.b":1}`, `{"q\"k":1}`, `{"k":1,"k":2}`, `{"error.code":5}`, `{"level":null}`, `{"level":{"x":1}}`, `{"message":"Привет 😀"}`, "{\"bad\":\"\xff\"}",
 	`{"log":"{\"nested\":\"json\"}"}`, `{"a":nul}`, `{"a":tru}`, `{'a':1}`, `{a:1}`, `{"a":1,}`, `[1,]`, `{"a" 1}`, `{"a":"b" "c":1}`,
 	`{"time":"2024-01-01T00:00:00Z","level":"info","message":"m","extract1":{"x":[1,2,{"y":"z"}]},"code":1.5e3}`,
+}
+
+// Runes whose lower- or upper-casing changes the UTF-8 length: code that
+// measures a string before folding its case and indexes after (or the other
+// way round) goes out of bounds only on these. Shrinking when lowered:
+// U+212A KELVIN SIGN (3 -> 1 byte), U+2126 OHM SIGN (3 -> 2), U+212B ANGSTROM
+// SIGN (3 -> 2), U+1E9E CAPITAL SHARP S (3 -> 2), U+0130 I WITH DOT ABOVE
+// (2 -> 1); growing: U+023A (2 -> 3), U+023E (2 -> 3).
+var caseLenRunes = []string{"\u212a", "\u2126", "\u212b", "\u1e9e", "\u0130", "\u023a", "\u023e"}
+
+// matchRuleValues are the values of the generated mask match rules: several
+// lengths, plain and with a length-changing rune at the start / middle / end.
+var matchRuleValues = []string{"a", "token", "10 k\u2126", "\u2126", "\u212a", "\u212aelvin 300", "stra\u1e9ee", "\u0130stanbul", "5 \u212b", "\u023a\u023e", "x\u023ey", "\u043f\u0430\u0440\u043e\u043b\u044c", "SECRET value", "\u2126\u2126\u2126"}
+
+// caseLenDict places every rule value and every length-changing rune at the
+// start, in the middle and at the end of a value.
+func caseLenDict() []string {
+	var d []string
+	for _, v := range matchRuleValues {
+		d = append(d, v, "measured "+v, v+" measured", "x"+v, v+"x", "abc "+v+" def", strings.ToUpper(v), strings.ToLower(v))
+	}
+	for _, r := range caseLenRunes {
+		d = append(d, r, r+r, r+r+r+r, r+"tail", "head"+r, "mid"+r+"dle", "value 10 k"+r, "10 "+r+" k", r+" 10 k", "token"+r, r+"token", "SECRET VALUE"+r, "a"+r, r+"a")
+	}
+	// tails made of several different shrinking runes, around the rule values
+	d = append(d, "10 K\u2126", "10 \u212a\u2126", "\u212a\u2126\u212b\u1e9e\u0130", "r = 10 k\u2126", "R = 10 K\u2126", "T = 300 \u212aELVIN 300", "STRA\u1e9eE", "\u0130STANBUL", "istanbul \u0130", "\u023a\u023e\u023a\u023e", "x \u2126\u2126\u2126", "\u2126\u2126")
+	return d
+}
+
+// matchRuleConfigs: one mask configuration per (mode, case_insensitive); each
+// holds two masks with a single-rule ruleset (invert false / true) so that no
+// rule is short-circuited by another, with and without a regexp.
+func matchRuleConfigs() []cfgSpec {
+	vals, _ := json.Marshal(matchRuleValues)
+	var out []cfgSpec
+	for _, mode := range []string{"prefix", "contains", "suffix"} {
+		for _, ci := range []bool{false, true} {
+			rule := func(invert bool, values string) string {
+				return fmt.Sprintf(`{"values":%s,"mode":%q,"case_insensitive":%v,"invert":%v}`, values, mode, ci, invert)
+			}
+			act := fmt.Sprintf(`{"type":"mask","masks":[`+
+				`{"match_rules":[{"rules":[%s]}],"applied_field":"m1","applied_value":"1"},`+
+				`{"match_rules":[{"rules":[%s]}],"applied_field":"m2","applied_value":"1"},`+
+				`{"match_rules":[{"cond":"or","rules":[%s,%s]},{"cond":"and","rules":[%s,%s]}],"re":"(\\d+)","groups":[1],"applied_field":"m3","applied_value":"1"}`+
+				`]}`,
+				rule(false, string(vals)), rule(true, string(vals)),
+				rule(false, `["10 k\u2126"]`), rule(false, `["\u212a","a","token"]`), rule(true, `["\u0130stanbul","x"]`), rule(false, `["\u2126\u2126\u2126","stra\u1e9ee","5 \u212b"]`))
+			label := "match-rules-" + mode
+			if ci {
+				label += "-case-insensitive"
+			}
+			out = append(out, one(label, act, "message", "meta.note"))
+		}
+	}
+	return out
 }
 
 func specs() []pluginSpec {
@@ -187,13 +243,14 @@ func specs() []pluginSpec {
 	})
 
 	s = append(s, pluginSpec{
-		Name: "discard", Expect: []string{"dropped", "output"}, Dict: []string{"info", "debug", "error"}, DictBias: 60,
+		Name: "discard", Expect: []string{"dropped", "output"}, Dict: append([]string{"info", "debug", "error"}, caseLenDict()...), DictBias: 60,
 		Configs: []cfgSpec{
 			one("all", `{"type":"discard"}`, "level"),
 			one("match-fields", `{"type":"discard","match_fields":{"level":"/info|debug/"}}`, "level"),
 			one("match-or-prefix", `{"type":"discard","match_fields":{"level":"err","message":"panic"},"match_mode":"or_prefix"}`, "level", "message"),
 			one("match-invert", `{"type":"discard","match_fields":{"level":["info","debug"]},"match_invert":true}`, "level"),
 			one("do-if", `{"type":"discard","do_if":{"op":"or","operands":[{"op":"contains","field":"message","values":["panic","é"]},{"op":"regex","field":"level","values":["^(inf|deb)"]},{"op":"byte_len_cmp","field":"message","cmp_op":"gt","value":100}]}}`, "level", "message"),
+			one("do-if-case-insensitive", `{"type":"discard","do_if":{"op":"or","operands":[{"op":"suffix","field":"message","case_sensitive":false,"values":["10 k\u2126","\u212a","token"]},{"op":"prefix","field":"message","case_sensitive":false,"values":["\u0130stanbul","\u2126\u2126\u2126"]},{"op":"contains","field":"level","case_sensitive":false,"values":["stra\u1e9ee","\u023a\u023e"]},{"op":"equal","field":"level","case_sensitive":false,"values":["5 \u212b","INFO"]}]}}`, "message", "level"),
 			one("metric-labels", `{"type":"discard","match_fields":{"level":"debug"},"metric_name":"dropped_debug","metric_labels":["service","level"]}`, "level", "service"),
 		},
 	})
@@ -321,6 +378,12 @@ func specs() []pluginSpec {
 		},
 		Benign: map[string]string{"card": `"4111 1111 1111 1111"`, "message": `"user=alice password=secret card 4111 1111 1111 1111 test"`},
 	})
+
+	{
+		m := &s[len(s)-1] // mask: match rules in every mode x case_insensitive x invert
+		m.Dict = append(m.Dict, caseLenDict()...)
+		m.Configs = append(m.Configs, matchRuleConfigs()...)
+	}
 
 	s = append(s, pluginSpec{
 		Name: "modify", Expect: []string{"output", "changed"}, DictBias: 50,
